@@ -37,6 +37,7 @@ type c13line struct {
 var c13lines = []c13line{
 	{name: "A", pairs: `{"ip":"10.0.1.1","port":80}`, addrs: `{"ip":"10.0.1.1"}`, ip: "10.0.1.1", port: 80},
 	{name: "B", pairs: `{"ip":"10.0.2.2","port":443}`, addrs: `{"ip":"10.0.2.2"}`, ip: "10.0.2.2", port: 443},
+	{name: "max-port", pairs: `{"ip":"10.0.4.4","port":65535}`, addrs: "", ip: "10.0.4.4", port: 65535},
 	{name: "empty-object", pairs: `{}`, addrs: `{}`, cause: "address", causeAddrs: "address"},
 	{name: "missing-ip", pairs: `{"port":80}`, addrs: `{"port":80}`, cause: "address", causeAddrs: "address"},
 	{name: "missing-port", pairs: `{"ip":"10.0.3.3"}`, addrs: "", cause: "port"},
